@@ -884,6 +884,9 @@ class FnRun(FnAnalysis):
                 if rv.get("variant") in ("Some", "Ok") and len(ops) == 1:
                     return ("opt", "some", ops[0])
             if rv["ak"] == "Array":
+                if ops and all(o and o[0] == "int" and o[1] is not None and o[1].is_const() for o in ops):
+                    # `[7, 14, 21]`: a table of constants; iterating it yields a value between the smallest and the largest
+                    return ("array", len(ops), min(o[1].c for o in ops), max(o[1].c for o in ops))
                 return ("array", len(ops))
             if rv["ak"] == "Closure" and rv.get("closure") and norm(rv["closure"]) in self.prog.direct_closures:
                 # a closure value is the tuple of what it captures
@@ -1114,6 +1117,13 @@ class FnRun(FnAnalysis):
         # ---- iteration over ranges
         elif last == "into_iter" and len(args) == 1 and args[0] and args[0][0] in ("range", "iter"):
             res = args[0]
+        elif last == "into_iter" and len(args) == 1 and args[0] and args[0][0] == "array" and len(args[0]) == 4:
+            res = ("iter", "consts", args[0][2], args[0][3])
+        elif last == "next" and len(args) == 1 and args[0] and args[0][0] == "ref" and (st.val.get(args[0][1]) or (None,))[:2] == ("iter", "consts"):
+            it_ = st.val[args[0][1]]
+            at = self.fresh(tag, dcls if dcls in INT_BOUNDS else "u64", False, "iter(consts)")
+            self.atom_meta[at]["lo"], self.atom_meta[at]["hi"] = it_[2], it_[3]
+            res = ("opt", "some", ("int", Lin.atom(at), it_[2], it_[3], False, frozenset()))
         elif last == "next" and len(args) == 1 and args[0] and args[0][0] == "ref" and (st.val.get(args[0][1]) or (None,))[0] == "range":
             r = st.val[args[0][1]]
             s, e = r[2], r[3]
